@@ -119,15 +119,13 @@ def run_c12(rep, tier, seed):
             s = rng.randrange(1, 10**6)
             ok, why = c12_spelling_case(smi, s)
             G["alternative-smiles-spellings"].case(ok, why, f"from vf.e3.rdkitio import c12_spelling_case\nok, why = c12_spelling_case({smi!r}, {s})\nprint(why)\n", sample=smi)
-    for smi in TET[:6] + EZ[:4] + [complex_smiles("SP", 2), complex_smiles("TB", 7), complex_smiles("OH", 11)]:
+    # incl. ring double bonds and aromatic rings (cis inferred from the ring), whose import branch handles neighbours separately
+    for smi in TET[:6] + EZ[:4] + [complex_smiles("SP", 2), complex_smiles("TB", 7), complex_smiles("OH", 11)] + ["c1ccccc1", "Cc1ccccc1", "c1ccncc1", "C1=CCCCC1", "C1=CC=CC1", "CC1=CCC=C1F", "c1ccc2ccccc2c1"]:
         m = load(smi)
-        nums = rng.sample(range(1, 900), m.GetNumAtoms())
-        for a, k in zip(m.GetAtoms(), nums):
-            a.SetAtomMapNum(k)
-        g0, e0 = safe(lambda: imp(m))
-        g1, e1 = safe(lambda: imp(m, use_atom_map_number=True))
-        ok = not e0 and not e1 and same_graph(snapshot(g1), snapshot(g0).relabel(lambda i: nums[i])) is None
-        G["atom-map-import-is-renamed-index-import"].case(ok, f"{smi}: {e0 or e1 or same_graph(snapshot(g1), snapshot(g0).relabel(lambda i: nums[i]))}", None, sample=smi)
+        for variant in range(2):
+            nums = rng.sample(range(1, 900), m.GetNumAtoms()) if variant == 0 else [i + 1 for i in range(m.GetNumAtoms())]
+            ok, why = c12_mapnum_case(smi, nums)
+            G["atom-map-import-is-renamed-index-import"].case(ok, f"{smi}: {why}", f"from vf.e3.rdkitio import c12_mapnum_case\nok, why = c12_mapnum_case({smi!r}, {nums!r})\nprint(why)\n", sample=smi)
     # stereoisomers import to pairwise unequal graphs
     pairs = [("[C@H](F)(Cl)Br", "[C@@H](F)(Cl)Br"), ("F[C@](Cl)(Br)I", "F[C@@](Cl)(Br)I"), ("C[S@](=O)CC", "C[S@@](=O)CC"), ("C[C@H](N)[C@@H](C)O", "C[C@@H](N)[C@@H](C)O")]
     for a, b in pairs:
@@ -164,6 +162,19 @@ def roundtrip(ref: Ref, order_seed=None, generate_bond_orders=False):
     after = raw_state(g)
     back = StereoMolGraph.from_rdmol(mol, use_atom_map_number=True)
     return g, back, before == after
+
+
+def c12_mapnum_case(smi, nums):
+    """import by atom map numbers == import by index, renamed"""
+    m = load(smi)
+    for a, k in zip(m.GetAtoms(), nums):
+        a.SetAtomMapNum(k)
+    g0, e0 = safe(lambda: imp(m))
+    g1, e1 = safe(lambda: imp(m, use_atom_map_number=True))
+    if e0 or e1:
+        return False, f"import raised {e0 or e1}"
+    d = same_graph(snapshot(g1), snapshot(g0).relabel(lambda i: nums[i]))
+    return d is None, str(d)
 
 
 def c13_case(ref: Ref, order_seed, what="atom", generate_bond_orders=False):
